@@ -209,7 +209,7 @@ class RelativeSequence(AbstractSequence):
 
         """
         split_sequences = []
-        working_memory = copy.copy(self._messages)
+        working_memory = [msg.copy() for msg in self._messages]
 
         current_sequence = RelativeSequence()
         open_messages = dict()
